@@ -38,6 +38,17 @@ fn cmp_dt(x: &DateTime, want: i128, off: i32) -> Cmp {
     }
 }
 
+/// Adds the absolute read-back "the accessor that mirrors the constructor returns the arguments" to a comparison
+/// (a constructor must not return a value built from other arguments than the ones given — whatever another
+/// read-out route does).
+fn and_reads_back(c: Cmp, ok: bool, what: String) -> Cmp {
+    if ok {
+        c
+    } else {
+        (0, what)
+    }
+}
+
 fn cmp_date(x: &Date, day: i64) -> Cmp {
     match diff_date(x, day) {
         Ok(DateDiff::Same) => (1, String::new()),
@@ -235,7 +246,7 @@ fn judge_from_ymd(rec: &mut Rec, y: i64, m: u32, d: u32, on_dt: bool, hms: Optio
     let r = trap(|| match (on_dt, hms) {
         (false, _) => Date::from_ymd(y as i32, m, d).map(|x| cmp_date(&x, want_day)),
         (true, None) => DateTime::from_ymd(y as i32, m, d).map(|x| cmp_dt(&x, want_i, 0)),
-        (true, Some(_)) => DateTime::from_ymdhms(y as i32, m, d, h, mi, s).map(|x| cmp_dt(&x, want_i, 0)),
+        (true, Some(_)) => DateTime::from_ymdhms(y as i32, m, d, h, mi, s).map(|x| and_reads_back(cmp_dt(&x, want_i, 0), x.as_ymdhms() == (y as i32, m, d, h, mi, s) && x.as_hms() == (h, mi, s), format!("as_ymdhms()/as_hms() read {:?} / {:?}, not the arguments", x.as_ymdhms(), x.as_hms()))),
     });
     note_skip(rec, &r);
     let v = judge_result(r, expect, |c| c.0 != 0, |name, a, b| {
@@ -262,7 +273,7 @@ fn judge_from_hms(rec: &mut Rec, h: u32, mi: u32, s: u32, kind: u8) {
     let secs = h as i64 * 3600 + mi as i64 * 60 + s as i64;
     let r = trap(|| match kind {
         0 => Time::from_hms(h, mi, s).map(|t| cmp_time(&t, (secs as i128 * NS).clamp(0, DN as i128 - 1) as u64, 0)),
-        1 => DateTime::from_hms(h, mi, s).map(|t| cmp_dt(&t, secs as i128 * NS, 0)),
+        1 => DateTime::from_hms(h, mi, s).map(|t| and_reads_back(cmp_dt(&t, secs as i128 * NS, 0), t.as_hms() == (h, mi, s), format!("as_hms() reads {:?}, not the arguments", t.as_hms()))),
         _ => Offset::from_hms(h.min(i32::MAX as u32) as i32, mi, s).map(|o| ((o.resolve() as i128 * NS == secs as i128 * NS) as i8, format!("resolves to {}", o.resolve()))),
     });
     note_skip(rec, &r);
